@@ -499,8 +499,6 @@ KNOWN_BRITTLE = {
     ("ben-C13-4", "C03"): "read_weights: div_ceil / `> 255` as `>= 256` / `% 2` as `& 1`",
     ("ben-C05-4", "C03"): "execute_sequences: `counter += ll` rewritten as `counter = high`",
     ("ben-C05-4", "C05"): "execute_sequences: `counter += ll` rewritten as `counter = high`",
-    ("ben-C06-2", "C06"): "checksum take moved into a helper returning bool: MIR counter/return pairing is per function",
-    ("ben-C10-2", "C06"): "checksum take moved into a helper returning bool: MIR counter/return pairing is per function",
     ("ben-C12-3", "C03"): "read_probabilities / build_decoding_table: index loops rewritten as iter().enumerate() with continue",
 }
 
